@@ -2,6 +2,7 @@ package props
 
 import (
 	"fmt"
+	"go/constant"
 	"go/token"
 	"go/types"
 	"strings"
@@ -12,7 +13,7 @@ import (
 )
 
 func init() {
-	register("C04", "Structural clauses behind termination and honest results under faults, decided on all paths: every blocking channel operation of the transfer code is a select with a context/close-channel arm (or a range over a channel closed by one deferred close), a failed source access or diff is reported to the peer with an ERR packet before the goroutine returns, the receive loops return success only on the FIN arm (end of stream before FIN is an error), the receiver sends FIN only after a checked diff and a checked wait for the writers, no protocol or source-access error is dropped or survived, every goroutine is started through an errgroup whose Wait precedes the return, and walkers poll the context before each callback. Walk callbacks never go on after a non-nil error argument; no error result in packages fsutil and util is left unread (best-effort sends, closes and tabled callees excepted). Does not decide time bounds, SIGKILL/crash recovery, convergence of a later transfer, or behaviour when the stream's own SendMsg/RecvMsg never return.", runC04)
+	register("C04", "Structural clauses behind termination and honest results under faults, decided on all paths: every blocking channel operation of the transfer code is a select with a context/close-channel arm (or a range over a channel closed by one deferred close), a failed source access or diff is reported to the peer with an ERR packet before the goroutine returns (the receiver's deferred ERR send and the writer's deferred cancel test the named result of the function that installs them and cannot be skipped when it is non-nil), the receive loops return success only on the FIN arm (end of stream before FIN is an error), the receiver sends FIN only after a checked diff and a checked wait for the writers, no protocol or source-access error is dropped or survived, every goroutine is started through an errgroup whose Wait precedes the return, and walkers poll the context before each callback. In the walking code (filter, fs, hard-link filter, follow-links, stat, tar writer) no error of a stat, readlink, xattr listing, nested walk or constructor is dropped or survived (tolerated: not-found of a followed path, ENOTSUP of xattr listing, the error handed to the caller's callback); a deferred function replaces a walk callback's error result by SkipDir or nil only on the true edge of a predicate on that very error; DiskWriter.HandleChange retries itself only when the failed Mkdir reported EEXIST. Walk callbacks never go on after a non-nil error argument; no error result in packages fsutil and util is left unread (best-effort sends, closes and tabled callees excepted). Does not decide time bounds, SIGKILL/crash recovery, convergence of a later transfer, or behaviour when the stream's own SendMsg/RecvMsg never return.", runC04)
 }
 
 func runC04(c *Ctx) {
@@ -41,6 +42,7 @@ func runC04(c *Ctx) {
 	statSizeAlways(c, "R04.14")
 	r04_15(c, "R04.15")
 	errDisciplineAll(c, "R04.16", 1, "fsutil", "util")
+	r04_17(c, "R04.17")
 }
 
 // transferFuncs: non-test functions of packages fsutil and copy.
@@ -300,16 +302,8 @@ func r04_3(c *Ctx, rule string) {
 				})
 				c.R.Check(ok, rule, con+"/dominates-returns", c.pos(def), "the ERR-sending defer dominates every return", "a return of the diff goroutine is not dominated by the ERR-sending defer")
 				// inside the deferred literal: ERR is sent when the result is non-nil
-				x := c.explorer(dlit)
-				var cellKey string
-				for _, fv := range dlit.FreeVars {
-					if isErrorPtr(fv.Type()) {
-						cellKey = "(*fv:" + fv.Name() + "==nil)"
-						_ = x
-					}
-				}
-				hit, und := c.ReachableUnder(dlit, map[string]bool{cellKey: false}, nil, func(in ssa.Instruction) bool { return c.sendsPacket(in, "PACKET_ERR") })
-				c.R.Check(!und && hit != nil && cellKey != "", rule, con+"/sends-on-error", c.P.Pos(dlit.Pos()), "with a non-nil result the deferred function sends PACKET_ERR", "the deferred function does not send PACKET_ERR when the goroutine's result is non-nil")
+				hit, und, cellKey := c.deferActsOnOwnResult(def, dlit, func(in ssa.Instruction) bool { return c.sendsPacket(in, "PACKET_ERR") })
+				c.R.Check(!und && hit != nil && cellKey != "", rule, con+"/sends-on-error", c.P.Pos(dlit.Pos()), "with a non-nil result the deferred function sends PACKET_ERR", "the deferred function does not send PACKET_ERR when the goroutine's own (named) result is non-nil: it tests no error variable or another one")
 				// and the named result really is what the goroutine returns
 				// (of the function that installs the defer: the goroutine body itself or the method it was moved to)
 				dsig := def.Parent().Signature
@@ -317,6 +311,74 @@ func r04_3(c *Ctx, rule string) {
 			}
 		}
 	}
+}
+
+// deferActsOnOwnResult decides, for a deferred function literal lit installed
+// by def, that with a non-nil named error result of the installing function
+// the action isT is reached and cannot be skipped: the cell the literal tests
+// is the named result of the function that installs the defer (not some other
+// error variable in scope - an outer err is nil for good at that point), and
+// with every nil test of that cell pinned to "non-nil" no return of the
+// literal is reachable without passing isT. The result cell is written by the
+// installing function, so its loads carry register keys: the nil tests are
+// pinned by register. Returns (hit, undecided, cell key); hit is nil when the
+// action can be skipped or the cell is not tested at all.
+func (c *Ctx) deferActsOnOwnResult(def *ssa.Defer, lit *ssa.Function, isT func(ssa.Instruction) bool) (*eng.Hit, bool, string) {
+	cellKey := ""
+	resName := ""
+	if rs := def.Parent().Signature.Results(); rs.Len() == 1 {
+		resName = rs.At(0).Name()
+	}
+	if mc, ok := def.Call.Value.(*ssa.MakeClosure); ok {
+		for i, fv := range lit.FreeVars {
+			if !isErrorPtr(fv.Type()) || i >= len(mc.Bindings) {
+				continue
+			}
+			if a, ok := mc.Bindings[i].(*ssa.Alloc); ok && a.Parent() == def.Parent() && resName != "" && a.Comment == resName {
+				cellKey = "(*fv:" + fv.Name() + "==nil)"
+			}
+		}
+	}
+	if cellKey == "" {
+		return nil, false, ""
+	}
+	hit, und := c.ReachableUnder(lit, map[string]bool{cellKey: false}, nil, isT)
+	if hit == nil || und {
+		return hit, und, cellKey
+	}
+	pins := map[string]bool{}
+	eng.Instrs(lit, func(in ssa.Instruction) {
+		b, ok := in.(*ssa.BinOp)
+		if !ok || (b.Op != token.NEQ && b.Op != token.EQL) {
+			return
+		}
+		for i, o := range []ssa.Value{b.X, b.Y} {
+			ld, ok := o.(*ssa.UnOp)
+			if !ok || ld.Op != token.MUL {
+				continue
+			}
+			fv, ok := ld.X.(*ssa.FreeVar)
+			if !ok || "(*fv:"+fv.Name()+"==nil)" != cellKey {
+				continue
+			}
+			if k, ok := []ssa.Value{b.Y, b.X}[i].(*ssa.Const); ok && k.IsNil() {
+				pins["@"+b.Name()] = b.Op == token.NEQ
+			}
+		}
+	})
+	y := c.explorer(lit)
+	y.Assume = pins
+	y.Barrier = func(in ssa.Instruction, st *eng.State) bool { return isT(in) }
+	y.Target = func(in ssa.Instruction, st *eng.State) bool { return isReturn(in) }
+	y.StopAtTarget = true
+	skips := y.Run()
+	if y.Exhausted {
+		return nil, true, cellKey
+	}
+	if len(skips) > 0 || len(pins) == 0 {
+		return nil, false, cellKey
+	}
+	return hit, false, cellKey
 }
 
 func isErrorPtr(t types.Type) bool {
@@ -592,6 +654,27 @@ var r046Callees = []string{
 	"field:fsutil.DiskWriterOpt.NotifyCb", "fsutil.Walk", "param:fn",
 }
 
+// source-access calls of the walking code whose error must be returned
+var r046WalkCallees = []string{
+	"(io/fs.DirEntry).Info", "os.Lstat", "os.Stat", "os.Readlink", "os.ReadDir", "os.Open",
+	"fsutil.mkstat", "fsutil.loadXattr", "github.com/containerd/continuity/sysx.LListxattr",
+	"(fsutil.FS).Walk", "fsutil.NewFS", "fsutil.NewFilterFS",
+}
+
+type tolerated struct {
+	why   string
+	preds []string // tolerance predicates; none (and no via): the site is not decided
+	via   []string // calls through which a success return stays allowed (a checked fallback)
+}
+
+var r046WalkExceptions = map[string]tolerated{
+	"fsutil.Walk$1/(io/fs.DirEntry).Info":                               {why: "the error is handed to the caller's callback as its error argument (filepath.WalkFunc convention)", preds: nil},
+	"fsutil.(*symlinkResolver).readSymlink/(fsutil.FS).Walk":            {why: "a followed path that does not exist contributes nothing", preds: []string{"fsutil.isNotFound"}},
+	"fsutil.(*symlinkResolver).readSymlink/fsutil.statFile":             {why: "a followed path that does not exist contributes nothing", preds: []string{"fsutil.isNotFound"}},
+	"fsutil.(*symlinkResolver).readSymlink/fsutil.readDir":              {why: "a wildcard in a directory that does not exist matches nothing", preds: []string{"fsutil.isNotFound"}},
+	"fsutil.loadXattr/github.com/containerd/continuity/sysx.LListxattr": {why: "ENOTSUP means the filesystem has no xattrs", preds: []string{"errors.Is", "github.com/pkg/errors.Is"}},
+}
+
 func r04_6(c *Ctx, rule string) {
 	c.R.Rule(rule, "no error of a protocol, source-access or pipeline call in the transfer code is dropped or survived (E8); best-effort sites are listed")
 	send := c.Fn(rule, "fsutil.Send")
@@ -642,6 +725,57 @@ func r04_6(c *Ctx, rule string) {
 		}
 	}
 	c.R.Floor(rule, "must-check call sites in the transfer code", n, 40)
+	// the walking code (source access proper): a failed stat of an entry is
+	// never turned into "no such entry" - the sender would announce a tree
+	// with the entry missing and report success
+	wfiles := map[string]bool{"filter.go": true, "fs.go": true, "followlinks.go": true, "hardlinks.go": true, "stat.go": true, "stat_unix.go": true, "tarwriter.go": true}
+	wwant := map[string]bool{}
+	for _, n := range r046WalkCallees {
+		wwant[n] = true
+	}
+	nw := 0
+	for _, fn := range transferFuncs(c, "fsutil") {
+		if fnPkgShort(c, fn) != "fsutil" || c.P.IsTestFile(fn.Pos()) {
+			continue
+		}
+		pos := c.P.Pos(fn.Pos())
+		if i := strings.Index(pos, ":"); i < 0 || !wfiles[pos[:i]] {
+			continue
+		}
+		for _, call := range eng.Calls(fn) {
+			name := c.P.CalleeName(call)
+			// (also: the caller's callback, and every error-returning
+			// function of the walking code itself)
+			own := false
+			if f := call.Common().StaticCallee(); f != nil && fnPkgShort(c, f) == "fsutil" {
+				fp := c.P.Pos(f.Pos())
+				if i := strings.Index(fp, ":"); i > 0 && wfiles[fp[:i]] {
+					_, _, own = c.errValueOf(call)
+				}
+			}
+			if !wwant[name] && !own && name != "param:fn" && name != "freevar:fn" && name != "local:fn" {
+				continue
+			}
+			if strings.HasSuffix(name, ").Close") {
+				continue
+			}
+			if _, isDefer := call.(*ssa.Defer); isDefer {
+				continue
+			}
+			if t, ok := tabled(c, r046WalkExceptions, call); ok {
+				if len(t.preds) == 0 {
+					c.R.OK(rule, c.siteName(call)+"/tabled", c.pos(call), "tabled: "+t.why)
+				} else {
+					nw++
+					c.ObErrCheckedTolerating(rule, call, t.why, t.preds...)
+				}
+				continue
+			}
+			nw++
+			c.ObErrChecked(rule, call)
+		}
+	}
+	c.R.Floor(rule, "must-check source-access sites in the walking code", nw, 10)
 	c.R.Floor(rule, "best-effort send sites", be, 3)
 	// the one swallowed source error, by design (C11): FS.Open in sendFile
 	sf := c.Fn(rule, "fsutil.(*sender).sendFile")
@@ -779,14 +913,8 @@ func r04_9(c *Ctx, rule string) {
 		} else {
 			ok, _, _ := c.Precedes(hc, nil, nil, func(in ssa.Instruction) bool { return in == ssa.Instruction(def) }, c.callPred(append(append([]string{}, hcMutatorsC04...), "fsutil.(*DiskWriter).processChange", "fsutil.(*DiskWriter).requestAsyncFileData")...))
 			c.R.Check(ok, rule, con+"/installed-first", c.pos(def), "installed before any mutation or hand-off", "a mutation or hand-off of HandleChange is reachable before the cancel-on-failure defer is installed")
-			var cell string
-			for _, fv := range lit.FreeVars {
-				if isErrorPtr(fv.Type()) {
-					cell = "(*fv:" + fv.Name() + "==nil)"
-				}
-			}
-			hit, und := c.ReachableUnder(lit, map[string]bool{cell: false}, nil, c.callPred("field:fsutil.DiskWriter.cancel"))
-			c.R.Check(!und && hit != nil && cell != "", rule, con+"/cancels", c.P.Pos(lit.Pos()), "with a non-nil result the deferred function calls cancel", "the deferred function does not call cancel when the change failed")
+			hit, und, cell := c.deferActsOnOwnResult(def, lit, c.callPred("field:fsutil.DiskWriter.cancel"))
+			c.R.Check(!und && hit != nil && cell != "", rule, con+"/cancels", c.P.Pos(lit.Pos()), "with a non-nil result the deferred function calls cancel", "the deferred function does not call cancel when the change failed (its own named result is non-nil): it tests no error variable or another one")
 			// the cancel really cancels the context the writers run under
 			nd := c.Fn(rule, "fsutil.NewDiskWriter")
 			if nd != nil {
@@ -1239,4 +1367,170 @@ func rangeLikeRecv(u *ssa.UnOp) bool {
 		}
 	}
 	return false
+}
+
+// onTrueEdgeOf reports whether block b is only entered over the true edge of
+// an If whose condition is the (possibly negated: then the false edge) result
+// of a call accepted by pred: the successor on that edge has the If's block as
+// its only predecessor and dominates b.
+func onTrueEdgeOf(b *ssa.BasicBlock, pred func(*ssa.Call) bool) bool {
+	for _, blk := range b.Parent().Blocks {
+		if len(blk.Instrs) == 0 {
+			continue
+		}
+		iff, ok := blk.Instrs[len(blk.Instrs)-1].(*ssa.If)
+		if !ok {
+			continue
+		}
+		cond, edge := iff.Cond, 0
+		for {
+			u, isNot := cond.(*ssa.UnOp)
+			if !isNot || u.Op != token.NOT {
+				break
+			}
+			cond, edge = u.X, 1-edge
+		}
+		call, isCall := cond.(*ssa.Call)
+		if !isCall || !pred(call) {
+			continue
+		}
+		t := blk.Succs[edge]
+		if len(t.Preds) == 1 && (t == b || t.Dominates(b)) {
+			return true
+		}
+	}
+	return false
+}
+
+// R04.17: errors are only ever rewritten to "skip" or retried under a test of
+// that very error.
+func r04_17(c *Ctx, rule string) {
+	c.R.Rule(rule, "a deferred function that overwrites the named error result of a walk callback with a value not derived from it (SkipDir, nil) does so only on the true edge of a predicate call on that result (not-exist test); the recursive retry in DiskWriter.HandleChange after a failed Mkdir is entered only on the true edge of errors.Is(err, EEXIST)")
+	n := 0
+	for _, fn := range transferFuncs(c, "fsutil") {
+		for _, in := range allInstrsShallow(fn) {
+			def, ok := in.(*ssa.Defer)
+			if !ok {
+				continue
+			}
+			mc, ok := def.Call.Value.(*ssa.MakeClosure)
+			if !ok {
+				continue
+			}
+			lit := c.P.ClosureFn(mc)
+			rs := fn.Signature.Results()
+			if lit == nil || rs.Len() != 1 || rs.At(0).Name() == "" {
+				continue
+			}
+			for i, fv := range lit.FreeVars {
+				if !isErrorPtr(fv.Type()) || i >= len(mc.Bindings) {
+					continue
+				}
+				a, isA := mc.Bindings[i].(*ssa.Alloc)
+				if !isA || a.Parent() != fn || a.Comment != rs.At(0).Name() {
+					continue
+				}
+				for _, li := range allInstrsShallow(lit) {
+					st, isS := li.(*ssa.Store)
+					if !isS || st.Addr != ssa.Value(fv) {
+						continue
+					}
+					// a value made from the old error (wrapping) keeps it
+					if c.DerivesFrom(st.Val, func(v ssa.Value) bool {
+						ld, isL := v.(*ssa.UnOp)
+						return isL && ld.Op == token.MUL && ld.X == ssa.Value(fv)
+					}, 4) {
+						continue
+					}
+					n++
+					ok := onTrueEdgeOf(st.Block(), func(call *ssa.Call) bool {
+						for _, arg := range call.Call.Args {
+							if ld, isL := arg.(*ssa.UnOp); isL && ld.Op == token.MUL && ld.X == ssa.Value(fv) {
+								return true
+							}
+						}
+						return false
+					})
+					c.R.Check(ok, rule, c.name(lit)+"/result-overwrite@"+blockName(st), c.pos(st), "the result is replaced only on the true edge of a predicate on that very error", "a deferred function replaces the callback's error result by another value without a dominating test of that error: every failure (cancellation, a failed send, a failed stat) is swallowed as if the entry had vanished")
+				}
+			}
+		}
+	}
+	c.R.Floor(rule, "guarded overwrites of a callback's error result", n, 1)
+	// the Mkdir retry
+	if hc := c.Fn(rule, "fsutil.(*DiskWriter).HandleChange"); hc != nil {
+		eexist := func(p *ssa.Call) bool {
+			n := c.P.CalleeName(p)
+			if n == "os.IsExist" {
+				return true
+			}
+			if (n != "errors.Is" && n != "github.com/pkg/errors.Is") || len(p.Call.Args) != 2 {
+				return false
+			}
+			mi, isMI := p.Call.Args[1].(*ssa.MakeInterface)
+			if !isMI {
+				return false
+			}
+			k, isK := mi.X.(*ssa.Const)
+			if !isK || k.Value == nil {
+				return false
+			}
+			for _, imp := range hc.Pkg.Pkg.Imports() {
+				if imp.Path() != "syscall" {
+					continue
+				}
+				if o, isC := imp.Scope().Lookup("EEXIST").(*types.Const); isC {
+					return constant.Compare(o.Val(), token.EQL, k.Value)
+				}
+			}
+			return false
+		}
+		var retries []ssa.CallInstruction
+		var tests []*ssa.Call
+		for _, call := range eng.Calls(hc) {
+			if call.Common().StaticCallee() == hc {
+				retries = append(retries, call)
+			}
+			if cv, ok := call.(*ssa.Call); ok && eexist(cv) {
+				tests = append(tests, cv)
+			}
+		}
+		switch {
+		case len(retries) == 0:
+			c.R.OK(rule, c.name(hc)+"/no-retry", c.P.Pos(hc.Pos()), "HandleChange does not call itself")
+		case len(tests) == 0:
+			c.R.OK(rule, c.name(hc)+"/retry-guard-not-interpreted", c.P.Pos(hc.Pos()), "HandleChange calls itself under a guard this rule does not interpret (no errors.Is(err, EEXIST) / os.IsExist test)")
+		default:
+			// with every already-exists test false, no retry is reachable
+			// (the test may sit in a helper and travel as a flag)
+			x := c.explorer(hc)
+			x.Assume = map[string]bool{}
+			for _, t := range tests {
+				x.Assume[x.RegKey(t)] = false
+			}
+			x.Target = func(in ssa.Instruction, st *eng.State) bool {
+				ci, ok := in.(ssa.CallInstruction)
+				return ok && ci.Common().StaticCallee() == hc
+			}
+			x.StopAtTarget = true
+			hits := x.Run()
+			con := c.name(hc) + "/retry-only-on-EEXIST"
+			switch {
+			case x.Exhausted:
+				c.R.Undecided(rule, con, c.P.Pos(hc.Pos()), "state limit exceeded while exploring "+c.name(hc))
+			case len(hits) > 0:
+				c.R.Fail(rule, con, c.pos(hits[0].Instr), "HandleChange calls itself again although the error is not EEXIST: a persistent failure (ENOSPC, EACCES) recurses without end; path "+eng.BlockTrace(hc, hits[0].Trace))
+			default:
+				c.R.OK(rule, con, c.pos(retries[0]), "the change is retried only when the directory already existed")
+			}
+		}
+	}
+}
+
+func allInstrsShallow(fn *ssa.Function) []ssa.Instruction {
+	var out []ssa.Instruction
+	for _, b := range fn.Blocks {
+		out = append(out, b.Instrs...)
+	}
+	return out
 }
